@@ -970,6 +970,19 @@ def translate_mt_logic():
     return out + [dd]
 
 
+def translate_reply_builders():
+    """The GENERATED sub-message builders of reply handlers (templates of contract/communication/reply.rs), for every contract,
+    handler, trigger and id."""
+    from . import tmpl_translate, translate
+    _, templates, _ = translate.fetch_tables()
+    path = tmpl_translate.reply_builders_source(templates)
+    kv = fetch_ast(path)
+
+    def setup(t):
+        t.interior = True
+    return translate_methods(path, {"BuilderT": ["setter_typed", "setter_raw", "converter_typed", "converter_raw"]}, setup=setup, kv=kv)
+
+
 RESP_WANTED = {"SubMsg": ["into_msg"], "Response": ["into_response"]}
 
 
@@ -1038,6 +1051,12 @@ def generate():
         mtmeth, _ = [], errors.append("generated proxy methods (contract/mt.rs templates): %s" % e)
 
     try:
+        rbuild = translate_reply_builders()
+    except Exception as e:
+        if type(e).__name__ != "TranslateError":
+            raise
+        rbuild, _ = [], errors.append("generated reply builders (contract/communication/reply.rs templates): %s" % e)
+    try:
         mtmeth_i = translate_mtmethods("interface")
     except Exception as e:
         if type(e).__name__ != "TranslateError":
@@ -1088,6 +1107,8 @@ def generate():
         "Definition mtmeth_iface_fns : program :=", prog(mtmeth_i), "",
 
 
+        "(* GENERATED code, for every contract / handler / trigger / id: the sub-message builders of reply handlers *)",
+        "Definition reply_builder_fns : program :=", prog(rbuild), "",
         "(* sylvia/src/into_response.rs: IntoMsg / IntoResponse; `enabled_features` = the cargo features switched on *)",
         "Definition resp_program (enabled_features : list string) : program :=", prog(resp), ""])
     global LAST_MACRO_TEXT, LAST_EXTRA_TEXTS
